@@ -21,7 +21,7 @@ rules themselves (guards_of / the CFG).
 from __future__ import annotations
 
 import ast
-from typing import List
+from typing import Dict, List, Optional
 
 
 def _uses(func: ast.AST, name: str) -> int:
@@ -89,7 +89,94 @@ def _fold_block(func: ast.AST, body: List[ast.stmt]) -> List[ast.stmt]:
     return out
 
 
-def normalise(tree: ast.Module) -> ast.Module:
+def named_tuple_classes(trees: List[ast.Module]) -> Dict[str, List[str]]:
+    """class name -> field names, for every ``class X(NamedTuple)`` with annotated fields only"""
+    found: Dict[str, List[str]] = {}
+    ambiguous = set()
+    for tree in trees:
+        for node in ast.walk(tree):
+            if not isinstance(node, ast.ClassDef):
+                continue
+            bases = {ast.unparse(b).split(".")[-1] for b in node.bases}
+            if "NamedTuple" not in bases:
+                continue
+            fields = [s.target.id for s in node.body if isinstance(s, ast.AnnAssign) and isinstance(s.target, ast.Name)]
+            has_methods = any(isinstance(s, (ast.FunctionDef, ast.AsyncFunctionDef)) for s in node.body)
+            if not fields or has_methods:
+                continue
+            if node.name in found:
+                ambiguous.add(node.name)
+            found[node.name] = fields
+    for name in ambiguous:
+        found.pop(name, None)
+    return found
+
+
+class _Records(ast.NodeTransformer):
+    """A plain record (NamedTuple without methods) is a tuple with named positions: ``X(a=1, b=2)`` is
+    rewritten to ``(1, 2)`` and ``r.a`` to ``r[0]`` where ``r`` is bound, in the same function, to the result
+    of a call of a function of this module whose return annotation is ``X`` (or to ``X(...)`` itself)."""
+
+    def __init__(self, records: Dict[str, List[str]], returning: Dict[str, str]):
+        self.records = records
+        self.returning = returning  # function / method name (this module) -> record class it returns
+        self.locals: Dict[str, str] = {}
+
+    def visit_FunctionDef(self, node: ast.FunctionDef) -> ast.AST:
+        saved = self.locals
+        self.locals = {}
+        for sub in ast.walk(node):
+            if isinstance(sub, ast.Assign) and len(sub.targets) == 1 and isinstance(sub.targets[0], ast.Name) and isinstance(sub.value, ast.Call):
+                callee = sub.value.func
+                name = callee.attr if isinstance(callee, ast.Attribute) else callee.id if isinstance(callee, ast.Name) else ""
+                record = self.returning.get(name) or (name if name in self.records else None)
+                if record:
+                    if sub.targets[0].id in self.locals and self.locals[sub.targets[0].id] != record:
+                        self.locals[sub.targets[0].id] = ""
+                    else:
+                        self.locals[sub.targets[0].id] = record
+        if node.returns is not None and ast.unparse(node.returns) in self.records:
+            node.returns = None  # the annotation would name a class that the model no longer needs
+        self.generic_visit(node)
+        self.locals = saved
+        return node
+
+    visit_AsyncFunctionDef = visit_FunctionDef  # type: ignore[assignment]
+
+    def visit_Attribute(self, node: ast.Attribute) -> ast.AST:
+        self.generic_visit(node)
+        if isinstance(node.value, ast.Name) and isinstance(node.ctx, ast.Load):
+            record = self.locals.get(node.value.id)
+            if record and node.attr in self.records[record]:
+                index = self.records[record].index(node.attr)
+                return ast.copy_location(ast.Subscript(value=node.value, slice=ast.Constant(value=index), ctx=ast.Load()), node)
+        return node
+
+    def visit_Call(self, node: ast.Call) -> ast.AST:
+        self.generic_visit(node)
+        name = node.func.id if isinstance(node.func, ast.Name) else node.func.attr if isinstance(node.func, ast.Attribute) else ""
+        fields = self.records.get(name)
+        if fields is None or any(isinstance(a, ast.Starred) for a in node.args) or any(k.arg is None for k in node.keywords):
+            return node
+        values: Dict[str, ast.AST] = dict(zip(fields, node.args))
+        for keyword in node.keywords:
+            values[keyword.arg] = keyword.value  # type: ignore[index]
+        if set(values) != set(fields):
+            return node
+        return ast.copy_location(ast.Tuple(elts=[values[f] for f in fields], ctx=ast.Load()), node)
+
+
+def normalise(tree: ast.Module, records: Optional[Dict[str, List[str]]] = None) -> ast.Module:
+    if records:
+        returning: Dict[str, str] = {}
+        for func in ast.walk(tree):
+            if isinstance(func, (ast.FunctionDef, ast.AsyncFunctionDef)) and func.returns is not None:
+                annotation = ast.unparse(func.returns)
+                if annotation in records:
+                    returning[func.name] = annotation
+        if returning or any(isinstance(n, ast.Name) and n.id in records for n in ast.walk(tree)):
+            tree = _Records(records, returning).visit(tree)
+            ast.fix_missing_locations(tree)
     for func in ast.walk(tree):
         if not isinstance(func, (ast.FunctionDef, ast.AsyncFunctionDef)):
             continue
